@@ -4,6 +4,10 @@ pub mod c03;
 pub mod c04;
 pub mod c05;
 pub mod c06;
+pub mod c07;
+pub mod c08;
+pub mod c09;
+pub mod c10;
 pub mod c11;
 pub mod c12;
 pub mod c13;
@@ -32,5 +36,9 @@ pub fn all() -> Vec<Prop> {
         Prop { id: "C12", gens: c12::gens, run: c12::run, rule: c12::RULE, assumptions: c12::ASSUMPTIONS },
         Prop { id: "C13", gens: c13::gens, run: c13::run, rule: c13::RULE, assumptions: c13::ASSUMPTIONS },
         Prop { id: "C14", gens: c14::gens, run: c14::run, rule: c14::RULE, assumptions: c14::ASSUMPTIONS },
+        Prop { id: "C08", gens: c08::gens, run: c08::run, rule: c08::RULE, assumptions: c08::ASSUMPTIONS },
+        Prop { id: "C09", gens: c09::gens, run: c09::run, rule: c09::RULE, assumptions: c09::ASSUMPTIONS },
+        Prop { id: "C07", gens: c07::gens, run: c07::run, rule: c07::RULE, assumptions: c07::ASSUMPTIONS },
+        Prop { id: "C10", gens: c10::gens, run: c10::run, rule: c10::RULE, assumptions: c10::ASSUMPTIONS },
     ]
 }
